@@ -5,7 +5,7 @@ on the step grid: k*step in f64 that is a fixpoint of the code's own quantisatio
 int coordinates integers), then bounds that contain w with a margin >= 1/2, then rows around w:
    inequalities   sum c_i x_i <= K   (or >=, <, >)  with  K - sum c_i w_i >= MARGIN(row)
    equalities     sum c_i x_i  = K   with K = sum c_i w_i EXACTLY (checked in rationals; the row is dropped otherwise)
-MARGIN(row) = 4*tol(row) + 20*step*sum|c_i|, tol(row) being the tolerance derived in vlib/fmodel.py from the code's own
+MARGIN(row) = 4*tol(row) + 20*step*max(1, sum|c_i|), tol(row) being the tolerance derived in vlib/fmodel.py from the code's own
 tolerances (so the margin is >= 40 steps per unit coefficient and >= 4e-5 relative: "well above the float step").
 Judge: `solve` must not answer NoSolution (a Timeout is a limit, not judged).  The returned point is additionally
 judged as in C06 (it lies in the known classes of C06 when it fails).
@@ -21,7 +21,7 @@ from . import c06
 TRUSTED_BASE = c06.TRUSTED_BASE
 ASSUMPTIONS = [
     "no time or memory limit fires: Timeout answers are not judged (C15)",
-    "robustly feasible := a witness exists on the step grid whose slack in every inequality is >= MARGIN(row) = 4*tol(row) + 20*step*sum|c_i| and which satisfies every equality exactly in rational arithmetic",
+    "robustly feasible := a witness exists on the step grid whose slack in every inequality is >= MARGIN(row) = 4*tol(row) + 20*step*max(1, sum|c_i|) (so never below 20 float steps in the row's own units: the property asks for a margin well above the float step, and the code lowers a strict row by shifting its CONSTANT by one step whatever the coefficients are) and which satisfies every equality exactly in rational arithmetic",
     "PROVED (Properties/C07.v, bit-exact model): robust_never_nosolution -- if every propagator of the model satisfies the per-propagator contract wsafe_below (succeeds and keeps the witness, up to T >= 2.01 steps, on every store below the declared one) and every split point satisfies split_ok_hyp, the search never answers NoSolution, for every fuel and budget, every agenda order; propagation_keeps_witness, split_keeps_witness (int pivots exactly, float pivots with tolerance); the contract is proved for int-var/int-const comparisons and for float x <= c, c <= x (margin T steps), x <= y (margin 2T steps) inside Magn (wsafe_int_comparisons, wsafe_float_comparisons, near_setters); bisect_progress",
     "PROVED IN TWO HALVES: FloatLinLe satisfies the contract if the bound it computes leaves the witness T steps (flin_le_wsafe_partial); the binary64 accumulation of n terms is within n*(2^-52*(|acc0|+sum|t_j|) + 2^-1074) of the exact sum (fsum_error_linear). NOT PROVED: the composition (rounding of the products, of K - sum and of the division) that would derive the accuracy hypothesis from slack >= 2.01*sum|c_j|*step_j + (n+3)*2^-52*(|K|+sum|c_j|*B_j), which MARGIN(row) exceeds",
     "NOT PROVED: FloatLinEq, strict comparisons and == constant over floats (Eq<VarId,Val> is not wsafe under tolerance containment), split_ok_hyp (the fall-back mid passes fi_split_ok; floor(m/step)*step <= m <= ceil(m/step)*step as computed), termination (a solution is returned for enough fuel): these are carried by this run's witness-constructed families only",
@@ -44,7 +44,7 @@ def margin(step, cs, Bs, isf):
     s = Fraction(step)
     tol = sum((abs(c) * (fm.K_STEP * s + fm.REL * B) for c, B, f in zip(cs, Bs, isf) if f), Fraction(0))
     tol += fm.EPS_REL * sum((abs(c) * B for c, B in zip(cs, Bs)), Fraction(0))
-    return 4 * tol + 20 * s * sum((abs(c) for c in cs), Fraction(0))
+    return 4 * tol + 20 * s * max(Fraction(1), sum((abs(c) for c in cs), Fraction(0)))
 
 def up(q):
     """smallest f64 >= q"""
